@@ -108,6 +108,9 @@ def run(ctx, prog):
         payload_t = dg[0].args[1]
         if not (mentions(payload_t, r'^sd_jwt$') and apps(payload_t, r'format$|fmt::format')):
             return 'digest not computed over the presented jwt and disclosures'
+        ad = apps(payload_t, r'(^|::)(unique\w*|dedup\w*|filter\w*|skip\w*|take\w*|rev|sorted\w*|step_by|chain|zip|flat\w*|map_while|scan|nth|last|next)$')
+        if ad:
+            return 'digest computed over a reshaped disclosure list (%s), not over the disclosures as presented' % ad[0][1].split('::')[-1]
         if not eq_took(p, lambda t: is_sub(t, claims), lambda t: is_sub(t, dg[0].ret)):
             return 'sd_hash not compared equal with the digest'
         for nm in ('nonce', 'aud'):
